@@ -14,6 +14,7 @@ import (
 	eswriter "github.com/siglens/siglens/pkg/es/writer"
 	"github.com/siglens/siglens/pkg/segment/memory/limit"
 	"github.com/siglens/siglens/pkg/segment/query"
+	"github.com/siglens/siglens/pkg/segment/sortindex"
 	"github.com/siglens/siglens/pkg/segment/writer"
 	serverutils "github.com/siglens/siglens/pkg/server/utils"
 	vtable "github.com/siglens/siglens/pkg/virtualtable"
@@ -108,6 +109,13 @@ func workerMain(scPath, outPath, dir string) {
 		out.Err = "init: " + err.Error()
 		return
 	}
+	if len(sc.SortCols) > 0 {
+		if err := sortindex.SetSortColumns(sc.Index, sc.SortCols); err != nil {
+			out.Err = "sort columns: " + err.Error()
+			return
+		}
+	}
+	rotations := 0
 	for _, st := range sc.Steps {
 		var sb strings.Builder
 		for _, e := range st.Events {
@@ -123,7 +131,22 @@ func workerMain(scPath, outPath, dir string) {
 		flushLogs()
 		if st.Rotate {
 			writer.ForceRotateSegmentsForTest()
+			rotations++
+			if len(sc.SortCols) > 0 {
+				if err := waitSortIndexes(dir, 3*len(sc.SortCols)*rotations); err != nil {
+					out.Err = err.Error()
+					return
+				}
+			}
 		}
+	}
+	if len(sc.SortCols) > 0 {
+		out.Srt = collectSrt(dir, sc.DrainSeed, sc.SortCols)
+		nev := 0
+		for _, st := range sc.Steps {
+			nev += len(st.Events)
+		}
+		out.Searcher = collectSearcher(dir, sc.DrainSeed, sc.SortCols, nev)
 	}
 	for _, q := range sc.Queries {
 		qr := queryResult{Name: q.Name}
